@@ -260,7 +260,14 @@ func (i *Interp) runtimePanic(fr *frame, format string, args ...interface{}) {
 			where = fr.fn.String() + " " + where
 		}
 	}
-	panic(targetPanic{v: iface{i.runtimeErrorType, "runtime error: " + msg}, runtime: true, msg: msg, where: where})
+	// runtime.errorString's Error() adds the "runtime error: " prefix itself; a few run-time
+	// panics are runtime.plainError values whose text has no prefix.
+	for _, plain := range []string{"assignment to entry in nil map", "close of closed channel", "close of nil channel", "send on closed channel", "interface conversion:"} {
+		if strings.HasPrefix(msg, plain) && i.ld != nil && i.ld.plainErrorType != nil {
+			panic(targetPanic{v: iface{i.ld.plainErrorType, msg}, runtime: true, msg: msg, where: where})
+		}
+	}
+	panic(targetPanic{v: iface{i.runtimeErrorType, msg}, runtime: true, msg: msg, where: where})
 }
 
 func (i *Interp) unsupported(format string, args ...interface{}) {
